@@ -6,7 +6,7 @@
     mime.WordDecoder.DecodeHeader on lines containing "=?"; lines without "=?" take Go's
     identity fast path, which is modelled. *)
 Require Import Model.Bytes Model.FieldDef Gen.FieldTable Model.Fields Model.Policy Model.Spill Model.Stream Model.HeaderParse.
-Require Import Proofs.TrimProofs Proofs.NormalizeProofs Proofs.HeaderProofs.
+Require Import Proofs.TrimProofs Proofs.NormalizeProofs Proofs.HeaderProofs Proofs.ParsedWfProofs.
 From Coq Require Import String.
 Local Open Scope N_scope.
 
@@ -68,3 +68,26 @@ Proof.
   split; [|vm_compute; reflexivity].
   intros f [<-|[<-|[<-|[]]]]; constructor; vm_compute; reflexivity.
 Qed.
+
+(** The full first sentence, for input without encoded-words: whatever header section the parser
+    accepts (any policy, any line ends, folded lines, junk lines under lenient policies), the
+    fields it returns are well formed, so serialising them and parsing again - under any policy,
+    followed by anything - returns exactly the same fields and adds no finding. *)
+Lemma gen_table_tchar : forallb (fun d => forallb is_tchar (fd_name d)) field_table = true.
+Proof. vm_compute. reflexivity. Qed.
+
+Theorem C19_parsed_fields_are_clean :
+  forall uni_lower mime_dec p s fnd fs s' fnd',
+    contains enc_marker (sdata s) = false ->
+    parse_fields field_table uni_lower mime_dec p s fnd = Ok (fs, s') fnd' ->
+    forall f, In f fs -> wf_field field_table uni_lower f.
+Proof. intros uni_lower mime_dec. exact (parsed_fields_are_wf field_table uni_lower mime_dec gen_table_ok gen_table_tchar). Qed.
+Print Assumptions C19_parsed_fields_are_clean.
+
+Theorem C19_one_parse_reaches_the_fixpoint :
+  forall uni_lower mime_dec p q s fnd fs s' fnd' rest tl fnd2,
+    contains enc_marker (sdata s) = false ->
+    parse_fields field_table uni_lower mime_dec p s fnd = Ok (fs, s') fnd' -> fs <> [] ->
+    parse_fields field_table uni_lower mime_dec q (mkst (serialize fs ++ rest) tl) fnd2 = Ok (fs, mkst rest tl) fnd2.
+Proof. intros uni_lower mime_dec. exact (parse_is_a_fixpoint field_table uni_lower mime_dec gen_table_ok gen_table_tchar). Qed.
+Print Assumptions C19_one_parse_reaches_the_fixpoint.
